@@ -126,7 +126,9 @@ def big_initial_history(rng, tier):
     """an array CREATED large (so that the chunk guess has to cut the shape down, in one or two dimensions), written in a few places
     far apart and read back there and where nothing was written"""
     dt = rng.choice(['Int32', 'Double', 'Int64', 'Float', 'UInt8', 'Int16', 'UInt64'])
-    shape = rng.choice([[20000], [40000], [9000], [150, 150], [300, 40], [7, 3000], [30, 30, 30]])
+    shape = rng.choice([[20000], [40000], [9000], [150, 150], [300, 40], [7, 3000], [30, 30, 30],
+                        # dimensions of extent 1 beside long ones: the halving of the chunk guess reaches them
+                        [1, 4096], [8192, 1], [1, 128, 1, 128], [1, 1, 9000], [3000, 1, 2]])
     lines = ['da_new %s %s %s %s' % (dt, A.idx(shape), rng.choice(['deflate', 'none', 'auto']), rng.choice(['auto', 'deflate', 'none']))]
     spots = []
     for _ in range(rng.randint(2, 4)):
@@ -153,7 +155,7 @@ def cases(tier, seed, rng):
     n = 150 if tier == 'quick' else 3000
     out = [Case(history(rng, tier), 'gen:array') for _ in range(n)]
     out += [Case(sparse_history(rng, tier), 'gen:sparse-growth') for _ in range(6 if tier == 'quick' else 100)]
-    out += [Case(big_initial_history(rng, tier), 'gen:big-initial') for _ in range(6 if tier == 'quick' else 100)]
+    out += [Case(big_initial_history(rng, tier), 'gen:big-initial') for _ in range(12 if tier == 'quick' else 150)]
     return out
 
 def nontrivial(case, tags):
